@@ -9,6 +9,7 @@ variable {F : Type} [Scalar F]
 
 theorem reset_eq (s : AverageTrueRange F) (h : WF s) : s.reset = some (fresh s.period_fn) := by
   unfold reset
+  try simp only [gen_helper]
   simp [TrueRange.reset_eq, ExponentialMovingAverage.reset_eq _ h.ema, fresh, period_fn,
     ExponentialMovingAverage.period_fn_eq]
 
